@@ -276,27 +276,32 @@ type result struct {
 	at         int
 }
 
-// history features used to name violation classes narrowly
+// history features used to name violation classes narrowly; the shrink flags
+// are taken from the real object's state at the time of the truncate
 type features struct {
-	flushedBefore     bool // some data was flushed to chunks earlier
-	shrunkDirty       bool // a truncate cut into (or below) bytes that were still only in the dirty buffer
-	shrunkFlushed     bool // a truncate cut into bytes already stored in chunks
-	extended          bool // a truncate grew the file
-	writeAfterShrink  bool
-	bigWrite          bool // a write larger than the chunk size limit
-	overlapWrite      bool // a write overlapping earlier written bytes
-	reopened          bool
-	dirtyLen, chunked int
+	flushedBefore    bool // some flush happened earlier
+	shrunk           bool // a truncate made the file smaller
+	shrinkWholeBelow bool // ... while the entry had a chunk lying wholly below the new size
+	shrinkCutChunk   bool // ... while the entry had a chunk straddling the new size
+	shrinkDirty      bool // ... while the dirty buffer held data beyond the new size
+	extended         bool // a truncate grew the file
+	bigWrite         bool // a write larger than the chunk size limit
+	overlapWrite     bool // a write overlapping earlier written bytes
+	reopened         bool
 }
 
 func (ft *features) trigger() string {
 	switch {
-	case ft.shrunkDirty && ft.shrunkFlushed:
-		return "shrink-of-dirty-and-flushed-data"
-	case ft.shrunkDirty:
-		return "shrink-of-dirty-data"
-	case ft.shrunkFlushed:
-		return "shrink-of-flushed-data"
+	case ft.shrinkWholeBelow && ft.shrinkDirty:
+		return "shrink-above-a-whole-chunk-and-below-dirty-data"
+	case ft.shrinkWholeBelow:
+		return "shrink-above-a-whole-chunk"
+	case ft.shrinkDirty:
+		return "shrink-below-dirty-data"
+	case ft.shrinkCutChunk:
+		return "shrink-cutting-a-chunk"
+	case ft.shrunk:
+		return "shrink"
 	case ft.extended:
 		return "extending-truncate"
 	case ft.reopened:
@@ -328,8 +333,6 @@ func (e *env) runCase(r *mc.Run, cl *mountlib.Classes, states *stateSet, kind, r
 	defer o.release()
 	var ft features
 	written := []bool{}                            // which bytes have ever been written
-	dirtyHi := 0                                   // end of data not yet flushed
-	flushedHi := 0                                 // end of data stored in chunks
 	all := append(append([]string{}, ops...), "f") // final flush
 	if reads == "end" {
 		all = append(all, "r") // and a look through a fresh handle
@@ -367,22 +370,24 @@ func (e *env) runCase(r *mc.Run, cl *mountlib.Classes, states *stateSet, kind, r
 			for j := a; j < a+b; j++ {
 				written[j] = true
 			}
-			if ft.shrunkDirty || ft.shrunkFlushed {
-				ft.writeAfterShrink = true
-			}
-			if a+b > dirtyHi {
-				dirtyHi = a + b
-			}
 			opErr = o.write(a, b)
 		case 't':
 			switch {
 			case a < len(o.model):
 				opClass = "truncate-shrink"
-				if a < dirtyHi {
-					ft.shrunkDirty = true
+				ft.shrunk = true
+				if filesys.DirtyMaxStopV(o.fh, 64) > int64(a) {
+					ft.shrinkDirty = true
 				}
-				if a < flushedHi {
-					ft.shrunkFlushed = true
+				if en := o.file.EntryV(); en != nil {
+					for _, c := range en.Chunks {
+						end := c.Offset + int64(c.Size)
+						if end <= int64(a) {
+							ft.shrinkWholeBelow = true
+						} else if c.Offset < int64(a) {
+							ft.shrinkCutChunk = true
+						}
+					}
 				}
 			case a > len(o.model):
 				opClass = "truncate-extend"
@@ -416,20 +421,13 @@ func (e *env) runCase(r *mc.Run, cl *mountlib.Classes, states *stateSet, kind, r
 			viewSig = ""
 		}
 		if k == 'f' || k == 'r' {
-			if dirtyHi > flushedHi {
-				flushedHi = dirtyHi
-			}
-			if len(o.model) < flushedHi {
-				flushedHi = len(o.model)
-			}
-			dirtyHi = 0
 			ft.flushedBefore = true
 		}
 		// reads
 		doReads := reads == "every" || i == len(ops)-1 || i == len(all)-1
 		stale := func() string {
 			if filesys.HasViewCacheV(o.fh) && viewSig != chunkSig() {
-				if ft.shrunkFlushed {
+				if ft.shrunk {
 					return "stale-chunk-view-after-truncate"
 				}
 				return "stale-chunk-view-after-later-upload"
